@@ -236,3 +236,8 @@ def finalize(ctx):
         ctx.inconc("no graph was checked")
     if ctx.counters.get("skipped_program_raises", 0) > 0.3 * max(1, ctx.counters.get("programs_checked", 0)):
         ctx.inconc("more than 30% of programs raised before their graph could be inspected")
+
+
+RULE += (
+    " Interop: two from_graph arrays over ONE caller-owned layer dict, alone and combined (closure, values, the caller's dict unchanged)."
+)
